@@ -49,6 +49,7 @@ type harnessResult struct {
 	DistinctPaths  int                      `json:"distinct_path_signatures"`
 	Bounds         map[string]string        `json:"bounds,omitempty"`
 	AbortReasons   map[string]int           `json:"abort_reasons,omitempty"`
+	Outputs        map[string]string        `json:"outputs,omitempty"`
 }
 
 func main() {
@@ -149,7 +150,7 @@ func main() {
 			os.Exit(2)
 		}
 		ex := &explorer{solver: solver, harness: h.Name(), maxPaths: *maxPaths, concCap: *concCap,
-			reachAll: map[string]int{}, funcs: map[*ssa.Function]bool{}, stubs: map[string]int{}, distinctSig: map[string]bool{},
+			reachAll: map[string]int{}, funcs: map[*ssa.Function]bool{}, stubs: map[string]int{}, distinctSig: map[string]bool{}, outputs: map[string]string{},
 			start: time.Now(), deadline: time.Now().Add(time.Duration(*timeout) * time.Second)}
 		if *fixAsg != "" {
 			var fa struct {
@@ -199,7 +200,7 @@ func main() {
 			UnknownAsserts: ex.unknownAssert, UnknownBranch: ex.unknownBranch, Violations: ex.violations, Errors: ex.errors,
 			Reach: ex.reachAll, Queries: solver.nQueries, QSat: solver.nSat, QUnsat: solver.nUnsat, QUnknown: solver.nUnknown,
 			CacheHits: solver.cacheHits, SolverSec: solver.solverTime.Seconds(), WallSec: time.Since(ex.start).Seconds(),
-			Steps: ex.totalSteps, MaxDecisions: ex.maxDecisions, Samples: ex.samples, DistinctPaths: len(ex.distinctSig), AbortReasons: ex.abortReasons}
+			Steps: ex.totalSteps, MaxDecisions: ex.maxDecisions, Samples: ex.samples, DistinctPaths: len(ex.distinctSig), AbortReasons: ex.abortReasons, Outputs: ex.outputs}
 		for f := range ex.funcs {
 			pos := prog.Fset.Position(f.Pos())
 			r.Funcs = append(r.Funcs, fmt.Sprintf("%s (%s:%d)", f.String(), shortPos(pos.Filename), pos.Line))
